@@ -101,6 +101,26 @@ Theorem C08_agree_implies_rebuild_partial : forall c,
 Proof. exact agree_implies_rebuild. Qed.
 Print Assumptions C08_agree_implies_rebuild_partial.
 
+(* the same for the other model-dependent clauses: an observation of research /
+   get_path that agrees with the model satisfies the paths clause up to the guard of
+   finding C08-set-path (this is `ok_paths || paths_known`), for every query program,
+   raising ones and both `reraise` values included; and the get_path probes satisfy
+   the Spec's indexing rules.  ([ok_untouched] does not involve the model.) *)
+Theorem C08_agree_implies_paths_partial : forall c,
+  wf_keys (c_in c) ->
+  res_eqb (list_eqb rentry_eqb) (model_research c) (c_research c) = true ->
+  match model_research c with
+  | Ok l => forallb (fun e => let '(p, r, g) := e in
+                      retrievable (c_in c) (p, r, got g) || crosses_set (collect_defs (c_in c)) (c_in c) p) l = true
+  | Raise _ => True
+  end.
+Proof. exact agree_implies_paths. Qed.
+Print Assumptions C08_agree_implies_paths_partial.
+
+Theorem C08_agree_implies_probes : forall c, probes_agree c = true -> ok_probes c = true.
+Proof. exact agree_implies_probes. Qed.
+Print Assumptions C08_agree_implies_probes.
+
 Example C08_agree_inhabited :
   imm_backref [] (c_in ex_case) = false /\ agree ex_case = true /\ c08_verdict ex_case = (true, true, false).
 Proof. exact ex_case_ok. Qed.
